@@ -18,7 +18,7 @@ for e in ents:
     try:
         open(dst,'w').write(src.replace(e['old'],e['new'],1))
         cmd='cd /verif && KVC_CONTRACT_OVERLAY=%s KVC_VERIF=/tmp/ag_C18 ./check C18'%D
-        if e.get('only'): cmd+=' --only %s'%e['only']
+        if e.get('only'): cmd+=" --only '%s'"%e['only']
         r=subprocess.run(cmd,shell=True,capture_output=True,text=True)
         lines=(r.stdout+r.stderr).splitlines()
         viol=[l for l in lines if l.startswith('VIOLATION')]
